@@ -17,6 +17,7 @@
 (*   dupkey one response key selected twice, by every pair of fields of    *)
 (*          Query and of A with a selection set that fits (lists of        *)
 (*          different lengths, objects against lists and leaves, nulls)    *)
+(*   deep   one unit of nesting written 300000 times (see DeepCases)        *)
 (*   hist   a schema and a second load that extends its types (see HistCases)*)
 (*   indef  input object fields whose default includes a value of the      *)
 (*          field's own type                                               *)
@@ -150,6 +151,20 @@ HistCases ==
   {[fam |-> "hist", ph |-> "case", lang |-> "sdl", sep |-> "sp", nm |-> 0, form |-> HBase \o <<"#cut">> \o x1 \o x2 \o tail] :
       x1 \in HExt, x2 \in HExt \cup {<<>>}, tail \in { <<>>, <<"type", "Z", "{", "__z", ":", "Int", "}">> }}
 
+\* ---------------------------------------------------------------- family deep
+\* nesting far deeper than any document has: a prefix, then one unit written `rep` times (lists in lists, objects in
+\* objects, selection sets in selection sets, inline fragments, list types); never closed - every reader returns
+DeepRep == 300000
+DeepCases ==
+  {[fam |-> "deep", ph |-> "case", lang |-> c[1], form |-> c[2], unit |-> c[3], rep |-> DeepRep, sep |-> "sp", nm |-> 0] : c \in {
+      <<"val", <<>>, <<"[">>>>, <<"val", <<>>, <<"{", "a", ":">>>>, <<"val", <<"[">>, <<"[", "{", "a", ":">>>>,
+      <<"exe", <<>>, <<"{", "a">>>>, <<"exe", <<"{">>, <<"...", "{">>>>, <<"exe", <<"{", "a", "(", "x", ":">>, <<"[">>>>,
+      <<"exe", <<"{", "a", "(", "x", ":">>, <<"{", "a", ":">>>>, <<"exe", <<"query", "(", "$", "v", ":">>, <<"[">>>>,
+      <<"exe", <<"query", "(", "$", "v", ":", "Int", "=">>, <<"[">>>>, <<"exe", <<"{", "...", "on">>, <<"[">>>>,
+      <<"sdl", <<"type", "Query", "{", "a", ":">>, <<"[">>>>, <<"sdl", <<"type", "Query", "{", "a", "(", "x", ":", "Int", "=">>, <<"[">>>>,
+      <<"sdl", <<"input", "In", "{", "a", ":", "In", "=">>, <<"{", "a", ":">>>>, <<"sdl", <<"directive", "@", "d", "(", "x", ":">>, <<"[">>>>,
+      <<"sdl", <<"type", "Query", "@", "d", "(", "x", ":">>, <<"[", "[">>>> }}
+
 \* ---------------------------------------------------------------- family dupkey
 QFields == { <<"title">>, <<"bad">>, <<"grid">>, <<"a", "{", "n", "}">>, <<"nul", "{", "n", "}">>, <<"items", "{", "n", "}">>,
              <<"items", "{", "kids", "{", "n", "}", "}">>, <<"named", "{", "name", "}">>, <<"any", "{", "__typename", "}">>,
@@ -175,6 +190,7 @@ PickLang == /\ cs.ph = "fam"
                \/ cs.fam = "dupkey" /\ cs' \in DupCases
                \/ cs.fam = "indef" /\ cs' \in InDefCases
                \/ cs.fam = "hist" /\ cs' \in HistCases
+               \/ cs.fam = "deep" /\ cs' \in DeepCases
                \/ cs.fam = "vars" /\ cs' \in VarCases
                \/ cs.fam = "refl" /\ cs' \in ReflCases
                \/ cs.fam = "undecl" /\ cs' \in UndeclCases
@@ -212,7 +228,7 @@ Vector ==
     vd |-> CASE cs.fam = "vars" -> 2 [] cs.fam \in {"refl", "undecl"} -> 1 [] OTHER -> VdBulk,
     cls |-> CASE cs.ph = "grow" -> "raw" [] cs.ph = "mut" -> "mutated" [] OTHER -> "valid",
     exp |-> Expected,
-    allow |-> AllowOf(KnownDev) ]
+    allow |-> AllowOf(KnownDev) ] @@ (IF "rep" \in DOMAIN cs THEN [unit |-> cs.unit, rep |-> cs.rep] ELSE <<>>)
 
 Emit == IsVector => PrintT("@@VEC " \o ToJson(Vector))
 
